@@ -327,6 +327,29 @@ func (u *Unit) mapLen(st *State, mt *types.Map, m string) string {
 	return t
 }
 
+// closedPreMap: values stored (at entry) in a map that existed at entry denote objects that existed at entry
+func (u *Unit) closedPreMap(mt *types.Map, m string, k string) {
+	var get func(t string) string
+	switch mt.Elem().Underlying().(type) {
+	case *types.Pointer, *types.Map, *types.Chan, *types.Signature:
+		get = func(t string) string { return t }
+	case *types.Slice:
+		get = func(t string) string { return "(sdata " + t + ")" }
+	default:
+		return
+	}
+	_, kv, _ := u.regM(mt)
+	kd, _, _ := u.regM(mt)
+	t0 := fmt.Sprintf("(select (select %s %s) %s)", u.entryHeap(kv), m, k)
+	d0 := fmt.Sprintf("(select (select %s %s) %s)", u.entryHeap(kd), m, k)
+	ck := "closedm:" + t0
+	if u.frameDone[ck] {
+		return
+	}
+	u.frameDone[ck] = true
+	u.fact(implies(and(fmt.Sprintf("(< (birth %s) %s)", m, u.entryNow), d0), fmt.Sprintf("(< (birth %s) %s)", get(t0), u.entryNow)))
+}
+
 func (fr *Frame) lookup(x *ssa.Lookup, st *State) *Val {
 	u := fr.u
 	m := fr.val(x.X)
@@ -353,6 +376,7 @@ func (fr *Frame) lookup(x *ssa.Lookup, st *State) *Val {
 	if u.nonnilElem(mt.Elem()) {
 		u.fact(implies(and(in, fmt.Sprintf("(< (birth %s) %s)", m.T, u.entryNow)), u.nonnilFact(res.T, mt.Elem())))
 	}
+	u.closedPreMap(mt, m.T, kt)
 	if x.CommaOk {
 		okc := u.w.newConst("ok:"+x.Name(), "Bool")
 		u.fact(eq(okc, in))
@@ -462,6 +486,7 @@ func (fr *Frame) nextOp(x *ssa.Next, st *State) *Val {
 	if u.nonnilElem(mt.Elem()) {
 		u.fact(implies(and(ok, fmt.Sprintf("(< (birth %s) %s)", it.mapRef, u.entryNow)), u.nonnilFact(v.T, mt.Elem())))
 	}
+	u.closedPreMap(mt, it.mapRef, k)
 	nv := u.w.newConst("visited", u.ghostSort[gk])
 	u.fact(eq(nv, ite(ok, fmt.Sprintf("(store %s %s true)", visited, k), visited)))
 	st.ghost[gk] = nv
